@@ -79,8 +79,10 @@ class SgrState:
         parts = []
         total = 0
         for _ in range(ngroups):
+            before = set(self.ul)
             g, n = self.group(rng, in_grammar)
             if total + n > 32:
+                self.ul = before          # the group is not emitted: forget its effect on the tracked state
                 break
             parts.append(g)
             total += n
